@@ -66,6 +66,13 @@ pub fn drain_exact<I: ExactSizeIterator>(cx: &mut Cx, mut it: I, cap: usize, id:
 
 /// `count`, `last`, `nth`, `fold` against the `next()` drain. `mk` builds a fresh iterator each time, `proj` makes items comparable.
 pub fn adapters<I: Iterator, T: PartialEq + Debug, F: Fn() -> I, P: Fn(I::Item) -> T>(cx: &mut Cx, mk: F, proj: P, cap: usize, id: &str, salt: usize) -> R {
+    if cx.small {
+        // interpreter legs: one call in eight (these paths hold no unsafe code; the native legs run them all)
+        cx.tick += 1;
+        if cx.tick % 8 != 0 {
+            return Ok(());
+        }
+    }
     let base: Vec<T> = drain(cx, mk(), cap, id)?.into_iter().map(&proj).collect();
     if base.len() >= cap {
         return Ok(());
@@ -100,6 +107,13 @@ pub fn adapters<I: Iterator, T: PartialEq + Debug, F: Fn() -> I, P: Fn(I::Item) 
 
 /// Consumes a double-ended iterator from both ends in the interleaving given by the bits of `salt`.
 pub fn double_ended<I: DoubleEndedIterator, T: PartialEq + Debug, F: Fn() -> I, P: Fn(I::Item) -> T>(cx: &mut Cx, mk: F, proj: P, cap: usize, id: &str, salt: usize) -> R {
+    if cx.small {
+        // interpreter legs: one call in eight (these paths hold no unsafe code; the native legs run them all)
+        cx.tick += 1;
+        if cx.tick % 8 != 0 {
+            return Ok(());
+        }
+    }
     let base: Vec<T> = mk().take(cap).map(&proj).collect();
     if base.len() >= cap {
         return Ok(());
